@@ -448,7 +448,7 @@ pub fn oracle(ops: &[Op], extra_probes: &[Key]) -> Vec<(usize, String)> {
                 } else {
                     "stored under an incompatible key (different known dimension / available space)"
                 };
-                fails.push((i, format!("lookup returned size {:#x}x{:#x} payload {} {}", g.w, g.h, g.payload, why)));
+                fails.push((i, format!("lookup returned size ({:#x}, {:#x}) payload {} {}", g.w, g.h, g.payload, why)));
             }
         } else if m != 2 && refl_key(k) {
             // a store under exactly this key and mode, not displaced since
